@@ -10,7 +10,7 @@ from quantity import IncompatibleUnitsError, Quantity
 import quantity.predefined as pre  # noqa: F401
 from quantity.money import Money  # noqa: F401
 
-from .. import cat, gen, refdata
+from .. import cat, gen, refdata, universe
 from ..model import F, exact, fs, mknum
 from ..runner import Part
 
@@ -106,6 +106,8 @@ def parts(tier):
         Part("mixed", "hyp", strategy=gen_mixed(), n=200000 if big else 10000),
         Part("num", "hyp", strategy=gen_num(), n=200000 if big else 10000),
         Part("same", "hyp", strategy=gen_same(), n=400000 if big else 20000),
+        Part("universe", "hyp", strategy=universe.gen_linear_case(n_max=3).filter(lambda c: len(c["picks"]) == 3),
+             n=100000 if big else 5000, chunk=1500),
     ]
 
 
@@ -158,17 +160,28 @@ def run_case(case, ctx):
             ctx.viol("num/eq", f"{q!r} == {n!r} is not False")
         if (q != n) is not True or (n != q) is not True:
             ctx.viol("num/ne", f"{q!r} != {n!r} is not True")
-    elif k == "same":
-        t = case["t"]
-        us = [cat.unit(u) for u in case["units"]]
-        qs = [Quantity(mknum(a), u) for a, u in zip(case["amts"], us)]
-        if t == "Temperature":
-            S = [Fraction(1)] * 3
-            quantized = False
+    elif k in ("same", "u_lin"):
+        if k == "u_lin":
+            built = universe.build_linear_case(case, ctx)
+            if built is None:
+                return
+            qs, refs, mus, quantized = built
+            us = [q.unit for q in qs]
+            S = [mu.factor for mu in mus]
+            if quantized:
+                kk = exact(case["kk"])
+                case = dict(case, kk=["int", str(int(kk) % 50)])
         else:
-            S = [cat.scale(u) for u in case["units"]]
-            quantized = cat.quantum(case["units"][0]) is not None
-        refs = [F(q.amount) * s for q, s in zip(qs, S)]
+            t = case["t"]
+            us = [cat.unit(u) for u in case["units"]]
+            qs = [Quantity(mknum(a), u) for a, u in zip(case["amts"], us)]
+            if t == "Temperature":
+                S = [Fraction(1)] * 3
+                quantized = False
+            else:
+                S = [cat.scale(u) for u in case["units"]]
+                quantized = cat.quantum(case["units"][0]) is not None
+            refs = [F(q.amount) * s for q, s in zip(qs, S)]
         a, b, c = qs
         if us[0] is not us[1] or us[1] is not us[2]:
             ctx.nontrivial()
